@@ -43,12 +43,18 @@ def doc_case(case):
     return dict(key=("doc", version, tuple(lines)), nontrivial=len(oks) == 4, failures=fails, sample=dict(lines=lines, outcomes={k: v[0] for k, v in outs.items()}))
 
 
+# values for a tag which does not exist yet (default datatype of the value): (datatype taken, value, valid)
+NEWTAG = [("Z", "hello", True), ("Z", "a\tb", False), ("Z", "x\ny", False), ("Z", "caf\u00e9", False), ("i", 5, True), ("i", True, False), ("f", 1.5, True), ("f", float("inf"), False),
+          ("f", float("nan"), False), ("B", [1, 2], True), ("B", [True, False], False), ("B", [float("inf")], False), ("B", [2**40], False), ("J", {"a": [1]}, True), ("J", ["caf\u00e9"], True),
+          ("J", {"a": float("nan")}, False), ("J", [{1, 2}], False), ("J", {1: "a"}, False), ("H", gfapy.ByteArray([1, 2]), True), ("B", gfapy.NumericArray([1, 2.5]), False)]
+
+
 def assign_case(case):
     _, version, dt, value, valid, vlevel, declared = case[:7]
     sibling = case[7] if len(case) > 7 else False
     fails = []
     seg = "S\tA\t*" if version == "gfa1" else "S\tA\t8\t*"
-    if declared:
+    if declared is True:
         seed_val = {"i": "1", "f": "1.0", "Z": "z", "A": "a", "H": "00", "J": "[]", "B": "c,1"}[dt]
         seg += "\txx:%s:%s" % (dt, seed_val)
     def fail(sig, what):
@@ -63,6 +69,8 @@ def assign_case(case):
             copy = l.clone()
             copy.set("xx", "s" if isinstance(value, (int, float)) else 7)
             copy_text = str(copy)
+        elif declared == "new-tag":
+            pass                             # a tag the line does not have and no datatype declared: the default datatype of the value
         elif not declared:
             l.set_datatype("xx", dt)
     except Exception as e:
@@ -239,6 +247,9 @@ def cases(tier, seed):
                         out.append(("assign", version, dt, v, False, vlevel, declared))
                 for v in good:
                     out.append(("assign", version, dt, v, True, vlevel, False, True))
+        for dt, v, valid in NEWTAG:
+            for vlevel in (0, 1, 2, 3):
+                out.append(("assign", version, dt, v, valid, vlevel, "new-tag"))
     for op in ("merge", "multiply"):
         for seqs in (("*", "*", "*"), ("ACGTAA", "AACCGG", "GGTTAA")):
             for vlevel in (0, 1, 2, 3):
